@@ -9,7 +9,7 @@ WORK = os.path.join(VERIF, '.work')
 
 # which direct predicate belongs to which property
 DIRECT_OWNER = {'immut': 'C07', 'repeat': 'C05', 'string_same': 'C05', 'history': 'C05',
-                'json': 'C10', 'evalbytes': 'C10', 'errwf': 'C08', 'usable': 'C08', 'must': 'C08'}
+                'json': 'C10', 'evalbytes': 'C10', 'jsonself': 'C11', 'errwf': 'C08', 'usable': 'C08', 'must': 'C08'}
 
 def load_known():
     return json.load(open(os.path.join(VERIF, 'known_findings.json')))
